@@ -8,6 +8,7 @@ import (
 	"sort"
 	"strings"
 	"sync"
+	"sync/atomic"
 	"time"
 
 	"github.com/ethereum/go-ethereum/p2p/enode"
@@ -401,6 +402,8 @@ func c18Transition(t *tabEnv, prev, next c07Obs, ev string, viol func(clause, si
 
 // ---- execution ----
 
+var c18DriftSampled atomic.Bool
+
 var c07Enabled sync.Map // start + "\x00" + history -> []string
 
 func c07Run1(r *mc.Report, prop, start string, hist []string, thorough bool) (canon string, expand bool) {
@@ -411,8 +414,29 @@ func c07Run1(r *mc.Report, prop, start string, hist []string, thorough bool) (ca
 		t := newTabEnv()
 		t.startLoop()
 		defer t.stop()
-		for _, ev := range c07Starts[start] {
+		model := newTabModel()
+		applyBoth := func(ev string) string { // the real table and the reference model step together
+			was := map[string]bool{}
+			for _, id := range t.pendingIDs() {
+				was[id] = true
+			}
 			if e := t.apply(ev); e != "" {
+				return e
+			}
+			if t.loopErr != "" {
+				return ""
+			}
+			var started []string
+			for _, id := range t.pendingIDs() {
+				if !was[id] {
+					started = append(started, id)
+				}
+			}
+			model.step(ev, started)
+			return ""
+		}
+		for _, ev := range c07Starts[start] {
+			if e := applyBoth(ev); e != "" {
 				r.EngineError("start state " + start + ": " + e)
 				return
 			}
@@ -423,7 +447,7 @@ func c07Run1(r *mc.Report, prop, start string, hist []string, thorough bool) (ca
 			if i == len(hist)-1 {
 				prev = t.observe(ids)
 			}
-			if e := t.apply(ev); e != "" {
+			if e := applyBoth(ev); e != "" {
 				r.EngineError(fmt.Sprintf("replay of %v: %s", hist, e))
 				return
 			}
@@ -435,6 +459,16 @@ func c07Run1(r *mc.Report, prop, start string, hist []string, thorough bool) (ca
 			}
 		}
 		o := t.observe(ids)
+		if prop == "C18" && o.loopErr == "" {
+			// layer 2: the reference model, stepped with the same events and scripted draws
+			r.Count("model_steps_compared", 1)
+			if got, want := renderSnap(t, o.snap), model.render(t.name); got != want {
+				r.Count("model_drift", 1)
+				if !c18DriftSampled.Swap(true) {
+					r.Set("model_drift_example", map[string]string{"start": start, "history": strings.Join(hist, " "), "table": got, "model": want})
+				}
+			}
+		}
 		if prop == "C07" {
 			c07Invariants(t, o, viol, drift)
 		} else if len(hist) > 0 && o.loopErr == "" {
